@@ -62,8 +62,16 @@ class LocalPipelineIo(PipelineIo):
         cdir = os.path.split(fpath)[0]
         os.makedirs(cdir, exist_ok=True)
 
-        with open(fpath, 'wb') as f:
+        # Write to a temporary name and rename into place, so that an
+        # interrupted transfer can never leave a truncated or partial item
+        # under its final name (in particular, next to an `index.wtml` that
+        # marks the containing directory as complete).
+        tpath = fpath + '.part'
+
+        with open(tpath, 'wb') as f:
             shutil.copyfileobj(source, f)
+
+        os.replace(tpath, fpath)
 
     def list_items(self, *path):
         dpath = self._make_item_name(path)
